@@ -1031,7 +1031,21 @@ impl TreeSink for ModelSink {
     fn associate_with_form(&self, target: &H, form: &H, nodes: (&H, Option<&H>)) {
         self.bump(11);
         self.rec(Call::Associate { target: target.0, form: form.0, n0: nodes.0 .0, n1: nodes.1.map(|h| h.0) });
-        self.chk_elem("associate_with_form(target)", target);
+        if self.chk_elem("associate_with_form(target)", target) {
+            // "the given form-associatable element": an HTML button, fieldset, input, object, output,
+            // select, textarea or img (or a custom element, which only the embedder can judge)
+            let dom = self.dom.borrow();
+            let ok = ["button", "fieldset", "input", "object", "output", "select", "textarea", "img"].iter().any(|n| dom.is_html_elem_named(target.0, n))
+                || matches!(&dom.n(target.0).kind, Kind::Element { ns, local, .. } if *ns == ns!(html) && local.contains('-'));
+            let shown = match &dom.n(target.0).kind {
+                Kind::Element { ns, local, .. } => format!("{{{}}}{}", &**ns, &**local),
+                _ => "not an element".to_string(),
+            };
+            drop(dom);
+            if !ok {
+                self.violation(format!("associate_with_form: target {} ({}) is not an HTML form-associated element", target.0, shown));
+            }
+        }
         if self.chk_elem("associate_with_form(form)", form) && !self.dom.borrow().is_html_elem_named(form.0, "form") {
             self.violation(format!("associate_with_form: form argument {} is not an HTML form element", form.0));
         }
